@@ -136,6 +136,23 @@ def handle (s : St) (line : String) : St × String :=
     match parseMeta [c, m, e, d, sc, j], fmt.toNat?, parseHex hex with
     | some md, some f, some data => if f < 256 then ({ s with w := some (some md, f, data) }, "ok") else (s, "bad-op")
     | _, _, _ => (s, "bad-op")
+  | ["held"] => (s, "same")   -- byte strings returned earlier are values: they never change afterwards
+  | ["wparse", hex] =>
+    -- a wrapper that comes from NewRawWrapper (object with history: it has been parsed from a storage form)
+    match parseHex hex with
+    | some b => (match newRawWrapper b with
+      | .ok w => ({ s with w := some (some w.md, w.format, w.data) }, showParsed (.ok w))
+      | r => ({ s with w := none }, showParsed r))
+    | none => (s, "bad-op")
+  | ["wdata", _mode, hex] =>
+    -- the public Data field is replaced / overwritten (how it is done makes no difference to a pure model)
+    match s.w, parseHex hex with
+    | some (md, f, _), some data => ({ s with w := some (md, f, data) }, "ok")
+    | _, _ => (s, "bad-op")
+  | ["wfmt", fmt] =>
+    match s.w, fmt.toNat? with
+    | some (md, _, data), some f => if f < 256 then ({ s with w := some (md, f, data) }, "ok") else (s, "bad-op")
+    | _, _ => (s, "bad-op")
   | ["wnewnil", fmt, hex] =>
     match fmt.toNat?, parseHex hex with
     | some f, some data => if f < 256 then ({ s with w := some (none, f, data) }, "ok") else (s, "bad-op")
